@@ -416,6 +416,12 @@ func (x *Exec) execFunction(fr *Frame, st *State) (*State, []Value) {
 					res = append(res, x.val(fr, r))
 				}
 				exits = append(exits, exitRec{cur, res})
+				if coverReturns && fr.top && !cur.pc.IsFalse() {
+					// audit mode: every return statement of the function under verification must be
+					// reachable in the model (an unreachable one means some assumption is too strong)
+					pos := x.eng.fset.Position(in.Pos())
+					x.vc.AddObligation(&Obligation{Name: fmt.Sprintf("cover:return@%d", pos.Line), Kind: "cover", Desc: fmt.Sprintf("return at line %d reachable", pos.Line), Cond: cur.pc, Goal: TFalse, Cover: true})
+				}
 				terminated = true
 			case *ssa.Panic:
 				x.oblige(fr, cur, "panic", "explicit", "explicit panic reachable", in.Pos(), TFalse, nil)
@@ -1044,7 +1050,10 @@ func (x *Exec) loadField(st *State, obj Term, stt *types.Struct, skey string, i 
 		}
 		sv := VSlice{Backing{Heap: true, Ref: Select(x.heapGet(st, key+"#b", arrOf(SInt)), obj), Imm: imm, ImmType: immT},
 			Select(x.heapGet(st, key+"#o", arrOf(SInt)), obj), Select(x.heapGet(st, key+"#l", arrOf(SInt)), obj), Select(x.heapGet(st, key+"#c", arrOf(SInt)), obj)}
-		x.fact("slice:"+sv.Len.S, And(Ge(sv.Off, IntLit(0)), Ge(sv.Len, IntLit(0)), Le(sv.Len, sv.Cap), Le(sv.Cap, BigLit(pow2(48)))))
+		if k := "slice:" + sv.Len.S + "|" + st.pc.S; !x.vc.declared[k] && !strings.Contains(sv.Len.S, "!q") {
+			x.vc.declared[k] = true
+			x.assume(st, And(Ge(sv.Off, IntLit(0)), Ge(sv.Len, IntLit(0)), Le(sv.Len, sv.Cap), Le(sv.Cap, BigLit(pow2(48)))))
+		}
 		return sv
 	case KAddr:
 		return VAddr{Kind: AOpaque, Opaque: Select(x.heapGet(st, key, arrOf(SInt)), obj), ElemT: ft.Underlying().(*types.Pointer).Elem()}
@@ -1061,7 +1070,14 @@ func (x *Exec) loadField(st *State, obj Term, stt *types.Struct, skey string, i 
 			x.vc.strFacts(t)
 		}
 		if kindOf(ft) == KInt {
-			x.fact("rng:"+t.S, x.rangeFact(t, ft))
+			// path-conditional: a heap array merged from several paths holds, on the paths that
+			// did not store into it, whatever the other paths' expression evaluates to there
+			// (e.g. an unchecked conversion that is only known to be in range where it ran);
+			// a global range fact about such a load would make those paths infeasible
+			if k := "rng:" + t.S + "|" + st.pc.S; !x.vc.declared[k] && !strings.Contains(t.S, "!q") {
+				x.vc.declared[k] = true
+				x.assume(st, x.rangeFact(t, ft))
+			}
 		}
 		if k := kindOf(ft); k == KRef || k == KMap {
 			x.entryRefFact(t)
@@ -2198,3 +2214,6 @@ func (x *Exec) freshMapUnreferenced(st *State, ref Term, t types.Type) {
 		}
 	}
 }
+
+// coverReturns (flag -covers): emit a reachability cover for every return statement.
+var coverReturns bool
